@@ -90,6 +90,31 @@ def rule_folds(chk, rel, tree, fnames):
             if seed is None:
                 chk.undecided('fold-identity', inst, node=node, file=rel, func=fname, detail='no seed assignment found')
                 continue
+            # what is folded in is computed in this call: a value kept in the object's own state from an earlier call (a cache of the minimum of a "static" array ...)
+            # goes stale when the data changes
+            operand = None
+            if isinstance(node, ast.If):
+                a_ = node.body[0]
+                operand = a_.value
+            elif isinstance(node, ast.Assign) and isinstance(node.value, ast.Call):
+                operand = [x for x in node.value.args if U(x) != var][0] if [x for x in node.value.args if U(x) != var] else None
+            stale = []
+            if operand is not None:
+                exprs = [operand]
+                if isinstance(operand, ast.Name):
+                    exprs = [d.value for d in ast.walk(fn) if isinstance(d, ast.Assign) and U(d.targets[0]) == operand.id]
+                for e_ in exprs:
+                    called = set(id(c.func) for c in ast.walk(e_) if isinstance(c, ast.Call))
+                    for x_ in ast.walk(e_):
+                        if isinstance(x_, (ast.Attribute, ast.Subscript)) and id(x_) not in called:
+                            root = x_
+                            while isinstance(root, (ast.Attribute, ast.Subscript)):
+                                root = root.value
+                            if isinstance(root, ast.Name) and root.id == 'self' and isinstance(x_, ast.Subscript):
+                                stale.append(U(x_))
+                chk.decide(not stale, 'fold-identity', inst + ':operand-computed-in-this-call', node=node, file=rel, func=fname,
+                           detail_bad='the value folded into %s can come from %s - state kept on the object from an earlier call, not recomputed from the arrays as they are now' % (var, stale),
+                           detail_ok='folds %s' % U(operand))
             sv = seed.value
             vals = [sv]
             if isinstance(sv, (ast.List, ast.Tuple)):
